@@ -102,12 +102,21 @@ func step(rt *rapid.T, e *env) bool {
 		}
 		if r.ch != nil && !r.unknown {
 			add(4, "rejoin")
+			if r.lateConfirmed && !r.joined {
+				add(14, "rejoin")
+			}
 		}
 		if r.ch != nil && r.joined && !r.unknown {
 			add(6, "leave")
+			if r.lateConfirmed {
+				add(14, "leave")
+			}
 		}
 	} else {
 		add(2, "cancel")
+		if pendLeave {
+			add(3, "cancel")
+		}
 	}
 	if pendJoin {
 		add(12, "self-own")
@@ -129,6 +138,8 @@ func step(rt *rapid.T, e *env) bool {
 	add(1, "error-foreign")
 	if pendLeave {
 		add(10, "unavail-own")
+	} else if r.joined && r.abandonedLeave && r.pend == nil {
+		add(16, "unavail-own")
 	} else if r.joined {
 		add(3, "unavail-own")
 	} else {
@@ -193,6 +204,9 @@ func step(rt *rapid.T, e *env) bool {
 	case "leave":
 		return e.leave(r, rapid.SampledFrom([]string{"", "bye", "gone <&> fishing"}).Draw(rt, "status"), rapid.Bool().Draw(rt, "xid"))
 	case "cancel":
+		if pendLeave {
+			r.abandonedLeave = true
+		}
 		return e.cancelCall(r)
 	case "race-self", "race-unavail", "race-error":
 		return e.race(r, strings.TrimPrefix(name, "race-"), rapid.Bool().Draw(rt, "cancelfirst"), rapid.IntRange(0, 3).Draw(rt, "yields"),
@@ -244,6 +258,10 @@ func step(rt *rapid.T, e *env) bool {
 			o.codes = []int{307}
 		case 1:
 			o.codes = []int{303}
+		}
+		if r.joined && r.abandonedLeave && r.pend == nil {
+			r.abandonedLeave = false
+			r.lateConfirmed = true
 		}
 		return e.unavailable(r, from, true, o)
 	case "unavail-other":
@@ -323,5 +341,5 @@ func runCase(rt *rapid.T) {
 }
 
 func TestC18Membership(t *testing.T) {
-	ev.Check(t, 1500, 15000, runCase)
+	ev.Check(t, 4000, 15000, runCase)
 }
